@@ -119,6 +119,43 @@ def wf_stop_race(w: int = 3) -> type:
         make_step("work", [Work], [StopEvent, None], work, num_workers=w)])
 
 
+def wf_stop_cleanup_writer() -> type:
+    """one branch returns the StopEvent while another branch is still running; the running branch writes
+    to the stream from its cancellation clean-up, and a third one streams on every loop iteration"""
+    import asyncio
+
+    async def start(self, ctx, ev, inv):  # noqa: ANN001
+        ctx.send_event(Work(uid=0))
+        ctx.send_event(A(uid=1))
+        ctx.send_event(Done(uid=2))
+        return None
+
+    async def stopper(self, ctx, ev, inv):  # noqa: ANN001
+        await gate("stop")
+        return StopEvent(result="stopped")
+
+    async def cleaner(self, ctx, ev, inv):  # noqa: ANN001
+        ctx.write_event_to_stream(Prog(uid=1))
+        try:
+            await gate("cleaner")
+        finally:
+            ctx.write_event_to_stream(Prog(uid=99))  # runs when the worker is cancelled
+        return None
+
+    async def streamer(self, ctx, ev, inv):  # noqa: ANN001
+        await gate("streamer")
+        for i in range(6):
+            ctx.write_event_to_stream(Prog(uid=10 + i))
+            await asyncio.sleep(0)
+        return None
+
+    return make_workflow("StopCleanup", [
+        make_step("start", [StartEvent], [Work, A, Done, None], start),
+        make_step("stopper", [Work], [StopEvent], stopper),
+        make_step("cleaner", [A], [None], cleaner),
+        make_step("streamer", [Done], [None], streamer)])
+
+
 def wf_two_stops() -> type:
     """two workers both return a StopEvent"""
 
@@ -216,6 +253,7 @@ def specs(tier: str) -> list[Spec]:
         Spec("custom_stop", {"cause": "custom_stop"}, wf_custom_stop),
         Spec("stop_race", {"cause": "stop_race"}, wf_stop_race, max_dev=(4 if tier == "quick" else None)),
         Spec("two_stops", {"cause": "two_stops"}, wf_two_stops, pair=True),
+        Spec("stop_vs_cleanup_writer", {"cause": "stop_race"}, wf_stop_cleanup_writer, pair=True),
         Spec("raise_no_retry", {"cause": "raise_no_retry"}, lambda: wf_raise(None)),
         Spec("raise_no_retry_other_worker", {"cause": "raise_no_retry"}, lambda: wf_raise(None, True)),
         Spec("raise_retry_exhausted", {"cause": "raise_retry_exhausted"}, lambda: wf_raise(pol3())),
